@@ -182,13 +182,47 @@ open AList
 section frames
 variable {α : Type} [Add α]
 
+/-! `deliver` touches `delivered` / `held` only -/
+@[simp] theorem deliver_awaitingMetrics (st : St α) (ds : List (Delivery α)) : (deliver st ds).awaitingMetrics = st.awaitingMetrics := by
+  unfold deliver; split <;> rfl
+@[simp] theorem deliver_awaitingEvents (st : St α) (ds : List (Delivery α)) : (deliver st ds).awaitingEvents = st.awaitingEvents := by
+  unfold deliver; split <;> rfl
+@[simp] theorem deliver_toLookup (st : St α) (ds : List (Delivery α)) : (deliver st ds).toLookup = st.toLookup := by
+  unfold deliver; split <;> rfl
+@[simp] theorem deliver_inFlight (st : St α) (ds : List (Delivery α)) : (deliver st ds).inFlight = st.inFlight := by
+  unfold deliver; split <;> rfl
+@[simp] theorem deliver_metricHosts (st : St α) (ds : List (Delivery α)) : (deliver st ds).metricHosts = st.metricHosts := by
+  unfold deliver; split <;> rfl
+@[simp] theorem deliver_eventHosts (st : St α) (ds : List (Delivery α)) : (deliver st ds).eventHosts = st.eventHosts := by
+  unfold deliver; split <;> rfl
+@[simp] theorem deliver_eventItems (st : St α) (ds : List (Delivery α)) : (deliver st ds).eventItems = st.eventItems := by
+  unfold deliver; split <;> rfl
+@[simp] theorem deliver_blocked (st : St α) (ds : List (Delivery α)) : (deliver st ds).blocked = st.blocked := by
+  unfold deliver; split <;> rfl
+
+/-- as long as nothing is held while downstream takes deliveries, handing over `ds` appends `ds` to what
+the stage has let go of -/
+theorem outbound_deliver (st : St α) (ds : List (Delivery α)) (hh : st.blocked = false → st.held = []) :
+    outbound (deliver st ds) = outbound st ++ ds := by
+  unfold deliver outbound
+  cases hb : st.blocked
+  · simp [hh hb]
+  · simp
+
+theorem heldOK_deliver (st : St α) (ds : List (Delivery α)) (hh : st.blocked = false → st.held = []) :
+    (deliver st ds).blocked = false → (deliver st ds).held = [] := by
+  intro hb
+  rw [deliver_blocked] at hb
+  unfold deliver
+  simp [hb, hh hb]
+
 /-- the state after the caller-side half of `DispatchMetricMap` (hits forwarded, queries counted) -/
 def afterHits (st : St α) (b : MM α) (pk : Peek) : St α :=
   let es := entries b
   let out := rekeyEntries (instOf pk) (es.filter (fun e => isHit pk e.src))
   let q := countQueries pk (es.map Ent.src)
   let st0 := { st with cacheHit := st.cacheHit + q.1, cacheMiss := st.cacheMiss + q.2 }
-  if out.isEmpty then st0 else { st0 with delivered := st0.delivered ++ [.metrics out] }
+  if out.isEmpty then st0 else deliver st0 [.metrics out]
 
 theorem step_arriveMetrics (fix : Bool) (st : St α) (b : MM α) (pk : Peek) :
     step fix st (.arriveMetrics b pk) =
@@ -198,15 +232,16 @@ theorem afterHits_frame (st : St α) (b : MM α) (pk : Peek) :
     (afterHits st b pk).awaitingMetrics = st.awaitingMetrics ∧ (afterHits st b pk).awaitingEvents = st.awaitingEvents ∧
     (afterHits st b pk).toLookup = st.toLookup ∧ (afterHits st b pk).inFlight = st.inFlight ∧
     (afterHits st b pk).metricHosts = st.metricHosts ∧ (afterHits st b pk).eventHosts = st.eventHosts ∧
-    (afterHits st b pk).eventItems = st.eventItems := by
+    (afterHits st b pk).eventItems = st.eventItems ∧ (afterHits st b pk).blocked = st.blocked := by
   unfold afterHits
   simp only
   split <;> simp
 
-theorem afterHits_delivered (st : St α) (b : MM α) (pk : Peek) :
-    (afterHits st b pk).delivered = st.delivered ++
+theorem afterHits_delivered (st : St α) (b : MM α) (pk : Peek) (hh : st.blocked = false → st.held = []) :
+    outbound (afterHits st b pk) = outbound st ++
       (if ((entries b).filter (fun e => isHit pk e.src)).isEmpty then []
-       else [.metrics (rekeyEntries (instOf pk) ((entries b).filter (fun e => isHit pk e.src)))]) := by
+       else [.metrics (rekeyEntries (instOf pk) ((entries b).filter (fun e => isHit pk e.src)))]) ∧
+    ((afterHits st b pk).blocked = false → (afterHits st b pk).held = []) := by
   unfold afterHits
   simp only
   split <;> rename_i h
@@ -232,7 +267,8 @@ theorem afterHits_delivered (st : St α) (b : MM α) (pk : Peek) :
         simp only [ofEntries, List.map_cons, List.foldl_cons] at h2
         rw [this] at h2
         exact absurd h2 (by simp)
-    simp [this]
+    simp only [this, if_true, List.append_nil]
+    exact ⟨rfl, hh⟩
   · have : ((entries b).filter (fun e => isHit pk e.src)).isEmpty = false := by
       cases hl : (entries b).filter (fun e => isHit pk e.src) with
       | nil =>
@@ -240,9 +276,12 @@ theorem afterHits_delivered (st : St α) (b : MM α) (pk : Peek) :
         show (rekeyEntries (instOf pk) ((entries b).filter (fun e => isHit pk e.src))).isEmpty = true
         rw [hl]; simp [rekeyEntries, ofEntries, MM.empty, MMap.isEmpty]
       | cons e t => rfl
-    simp [this]
+    simp only [this, Bool.false_eq_true, if_false]
+    exact ⟨outbound_deliver _ _ hh, heldOK_deliver _ _ hh⟩
 
 @[simp] theorem parkEnt_delivered (fix : Bool) (st : St α) (e : Ent α) : (parkEnt fix st e).delivered = st.delivered := rfl
+@[simp] theorem parkEnt_held (fix : Bool) (st : St α) (e : Ent α) : (parkEnt fix st e).held = st.held := rfl
+@[simp] theorem parkEnt_blocked (fix : Bool) (st : St α) (e : Ent α) : (parkEnt fix st e).blocked = st.blocked := rfl
 @[simp] theorem parkEnt_awaitingEvents (fix : Bool) (st : St α) (e : Ent α) : (parkEnt fix st e).awaitingEvents = st.awaitingEvents := rfl
 @[simp] theorem parkEnt_inFlight (fix : Bool) (st : St α) (e : Ent α) : (parkEnt fix st e).inFlight = st.inFlight := rfl
 @[simp] theorem parkEnt_eventHosts (fix : Bool) (st : St α) (e : Ent α) : (parkEnt fix st e).eventHosts = st.eventHosts := rfl
@@ -251,7 +290,8 @@ theorem afterHits_delivered (st : St α) (b : MM α) (pk : Peek) :
 theorem foldl_parkEnt_frame (fix : Bool) (es : List (Ent α)) (st : St α) :
     (es.foldl (parkEnt fix) st).delivered = st.delivered ∧ (es.foldl (parkEnt fix) st).awaitingEvents = st.awaitingEvents ∧
     (es.foldl (parkEnt fix) st).inFlight = st.inFlight ∧ (es.foldl (parkEnt fix) st).eventHosts = st.eventHosts ∧
-    (es.foldl (parkEnt fix) st).eventItems = st.eventItems := by
+    (es.foldl (parkEnt fix) st).eventItems = st.eventItems ∧ (es.foldl (parkEnt fix) st).held = st.held ∧
+    (es.foldl (parkEnt fix) st).blocked = st.blocked := by
   induction es generalizing st with
   | nil => simp
   | cons e t ih => simp only [List.foldl_cons]; have := ih (parkEnt fix st e); simpa using this
@@ -261,13 +301,15 @@ theorem step_preserves_env (P : St α → Prop) (E : St α → String → Prop) 
     (hHits : ∀ st b pk, P st → P (afterHits st b pk))
     (hEnt : ∀ st e, P st → P (parkEnt fix st e))
     (hEvHit : ∀ (st : St α) (h m : Nat) (d : Delivery α), P st →
-        P { st with cacheHit := h, cacheMiss := m, delivered := st.delivered ++ [d] })
+        P (deliver { st with cacheHit := h, cacheMiss := m } [d]))
     (hEvMiss : ∀ (st : St α) (h m : Nat) e, P st → P (parkEvent fix { st with cacheHit := h, cacheMiss := m } e))
     (hSend : ∀ (st : St α) s rest, st.toLookup = s :: rest → P st →
         P { st with toLookup := rest, inFlight := s :: st.inFlight, sent := st.sent ++ [s] })
     (hInfo : ∀ (st : St α) s r, E st s → P st →
         P { releaseEvents (releaseMetrics st s r) s r with inFlight := (releaseEvents (releaseMetrics st s r) s r).inFlight.erase s })
     (hEmit : ∀ (st : St α) x, P st → P { st with emitted := st.emitted ++ [x] })
+    (hBlock : ∀ (st : St α), P st → P { st with blocked := true })
+    (hUnblock : ∀ (st : St α), P st → P { st with blocked := false, delivered := st.delivered ++ st.held, held := [] })
     (st : St α) (a : Action α) (henv : ∀ s r, a = .info s r → E st s) (h : P st) : P (step fix st a) := by
   cases a with
   | arriveMetrics b pk =>
@@ -290,20 +332,24 @@ theorem step_preserves_env (P : St α → Prop) (E : St α → String → Prop) 
     · rename_i s rest heq; exact hSend st s rest heq h
   | info s r => exact hInfo st s r (henv s r rfl) h
   | emit => exact hEmit st _ h
+  | block => exact hBlock st h
+  | unblock => exact hUnblock st h
 
 theorem step_preserves (P : St α → Prop) (fix : Bool)
     (hHits : ∀ st b pk, P st → P (afterHits st b pk))
     (hEnt : ∀ st e, P st → P (parkEnt fix st e))
     (hEvHit : ∀ (st : St α) (h m : Nat) (d : Delivery α), P st →
-        P { st with cacheHit := h, cacheMiss := m, delivered := st.delivered ++ [d] })
+        P (deliver { st with cacheHit := h, cacheMiss := m } [d]))
     (hEvMiss : ∀ (st : St α) (h m : Nat) e, P st → P (parkEvent fix { st with cacheHit := h, cacheMiss := m } e))
     (hSend : ∀ (st : St α) s rest, st.toLookup = s :: rest → P st →
         P { st with toLookup := rest, inFlight := s :: st.inFlight, sent := st.sent ++ [s] })
     (hInfo : ∀ (st : St α) s r, P st →
         P { releaseEvents (releaseMetrics st s r) s r with inFlight := (releaseEvents (releaseMetrics st s r) s r).inFlight.erase s })
     (hEmit : ∀ (st : St α) x, P st → P { st with emitted := st.emitted ++ [x] })
+    (hBlock : ∀ (st : St α), P st → P { st with blocked := true })
+    (hUnblock : ∀ (st : St α), P st → P { st with blocked := false, delivered := st.delivered ++ st.held, held := [] })
     (st : St α) (a : Action α) (h : P st) : P (step fix st a) :=
-  step_preserves_env P (fun _ _ => True) fix hHits hEnt hEvHit hEvMiss hSend (fun st s r _ => hInfo st s r) hEmit st a
+  step_preserves_env P (fun _ _ => True) fix hHits hEnt hEvHit hEvMiss hSend (fun st s r _ => hInfo st s r) hEmit hBlock hUnblock st a
     (fun _ _ _ => trivial) h
 
 end frames
@@ -322,9 +368,14 @@ structure WFst (st : St α) : Prop where
   ndE : NodupKeys st.awaitingEvents
   neE : ∀ s l, lookup s st.awaitingEvents = some l → l ≠ []
   srcE : ∀ s l, lookup s st.awaitingEvents = some l → ∀ e ∈ l, e.src = s
+  /-- nothing is held back while downstream takes deliveries -/
+  heldOK : st.blocked = false → st.held = []
 
 theorem wf_init : WFst (init : St α) :=
-  ⟨List.nodup_nil, List.nodup_nil, by intro s l h; simp [init] at h, by intro s l h; simp [init] at h⟩
+  ⟨List.nodup_nil, List.nodup_nil, by intro s l h; simp [init] at h, by intro s l h; simp [init] at h, fun _ => rfl⟩
+
+theorem wf_deliver (st : St α) (ds : List (Delivery α)) (h : WFst st) : WFst (deliver st ds) :=
+  ⟨by simpa using h.ndM, by simpa using h.ndE, by simpa using h.neE, by simpa using h.srcE, heldOK_deliver st ds h.heldOK⟩
 
 theorem noEvents_eq {st : St α} (h : WFst st) (s : String) : noEvents st s = (lookup s st.awaitingEvents).isNone := by
   unfold noEvents
@@ -336,7 +387,7 @@ theorem noEvents_eq {st : St α} (h : WFst st) (s : String) : noEvents st s = (l
     | cons x t => rfl
 
 theorem wf_parkEvent (fix : Bool) (st : St α) (e : Event) (h : WFst st) : WFst (parkEvent fix st e) := by
-  refine ⟨h.ndM, nodupKeys_upsert _ _ h.ndE, ?_, ?_⟩
+  refine ⟨h.ndM, nodupKeys_upsert _ _ h.ndE, ?_, ?_, h.heldOK⟩
   · intro s l hl
     simp only [parkEvent, lookup_upsert] at hl
     split at hl
@@ -358,13 +409,13 @@ theorem wf_parkEvent (fix : Bool) (st : St α) (e : Event) (h : WFst st) : WFst 
 theorem wf_releaseMetrics (st : St α) (s : String) (r : Option Inst) (h : WFst st) : WFst (releaseMetrics st s r) := by
   unfold releaseMetrics
   split
-  · exact ⟨nodupKeys_erase _ h.ndM, h.ndE, h.neE, h.srcE⟩
+  · exact wf_deliver _ _ ⟨nodupKeys_erase _ h.ndM, h.ndE, h.neE, h.srcE, h.heldOK⟩
   · exact h
 
 theorem wf_releaseEvents (st : St α) (s : String) (r : Option Inst) (h : WFst st) : WFst (releaseEvents st s r) := by
   unfold releaseEvents
   split
-  · refine ⟨h.ndM, nodupKeys_erase _ h.ndE, ?_, ?_⟩
+  · refine wf_deliver _ _ ⟨h.ndM, nodupKeys_erase _ h.ndE, ?_, ?_, h.heldOK⟩
     · intro s' l hl
       simp only [lookup_erase] at hl
       split at hl
@@ -378,19 +429,21 @@ theorem wf_releaseEvents (st : St α) (s : String) (r : Option Inst) (h : WFst s
   · exact h
 
 theorem wf_step (fix : Bool) (st : St α) (a : Action α) (h : WFst st) : WFst (step fix st a) := by
-  refine step_preserves WFst fix ?_ ?_ ?_ ?_ ?_ ?_ ?_ st a h
+  refine step_preserves WFst fix ?_ ?_ ?_ ?_ ?_ ?_ ?_ ?_ ?_ st a h
   · intro st b pk h
     obtain ⟨e1, e2, _⟩ := afterHits_frame st b pk
-    exact ⟨by rw [e1]; exact h.ndM, by rw [e2]; exact h.ndE, by rw [e2]; exact h.neE, by rw [e2]; exact h.srcE⟩
+    exact ⟨by rw [e1]; exact h.ndM, by rw [e2]; exact h.ndE, by rw [e2]; exact h.neE, by rw [e2]; exact h.srcE, (afterHits_delivered st b pk h.heldOK).2⟩
   · intro st e h
-    exact ⟨nodupKeys_upsert _ _ h.ndM, h.ndE, h.neE, h.srcE⟩
-  · intro st _ _ d h; exact ⟨h.ndM, h.ndE, h.neE, h.srcE⟩
-  · intro st _ _ e h; exact wf_parkEvent fix _ e ⟨h.ndM, h.ndE, h.neE, h.srcE⟩
-  · intro st s rest _ h; exact ⟨h.ndM, h.ndE, h.neE, h.srcE⟩
+    exact ⟨nodupKeys_upsert _ _ h.ndM, h.ndE, h.neE, h.srcE, h.heldOK⟩
+  · intro st _ _ d h; exact wf_deliver _ _ ⟨h.ndM, h.ndE, h.neE, h.srcE, h.heldOK⟩
+  · intro st _ _ e h; exact wf_parkEvent fix _ e ⟨h.ndM, h.ndE, h.neE, h.srcE, h.heldOK⟩
+  · intro st s rest _ h; exact ⟨h.ndM, h.ndE, h.neE, h.srcE, h.heldOK⟩
   · intro st s r h
     have := wf_releaseEvents _ s r (wf_releaseMetrics st s r h)
-    exact ⟨this.ndM, this.ndE, this.neE, this.srcE⟩
-  · intro st x h; exact ⟨h.ndM, h.ndE, h.neE, h.srcE⟩
+    exact ⟨this.ndM, this.ndE, this.neE, this.srcE, this.heldOK⟩
+  · intro st x h; exact ⟨h.ndM, h.ndE, h.neE, h.srcE, h.heldOK⟩
+  · intro st h; exact ⟨h.ndM, h.ndE, h.neE, h.srcE, fun hb => by simp at hb⟩
+  · intro st h; exact ⟨h.ndM, h.ndE, h.neE, h.srcE, fun _ => rfl⟩
 
 theorem wf_foldl (fix : Bool) (as : List (Action α)) (st : St α) (h : WFst st) : WFst (as.foldl (step fix) st) := by
   induction as generalizing st with
@@ -470,9 +523,9 @@ theorem parked_release (st : St α) (s : String) (r : Option Inst) (h : WFst st)
       · rename_i hk; subst hk; exact hnone
       · rfl
   have e2 : (releaseMetrics st s r).awaitingEvents = st.awaitingEvents := by
-    unfold releaseMetrics; split <;> rfl
+    unfold releaseMetrics; split <;> simp
   have e3 : ∀ (st : St α), (releaseEvents st s r).awaitingMetrics = st.awaitingMetrics := by
-    intro st; unfold releaseEvents; split <;> rfl
+    intro st; unfold releaseEvents; split <;> simp
   have e4 : ∀ (st : St α), WFst st → ∀ k, lookup k (releaseEvents st s r).awaitingEvents = if s = k then none else lookup k st.awaitingEvents := by
     intro st hw k
     unfold releaseEvents
@@ -499,9 +552,9 @@ theorem release_lookup_frame (st : St α) (s : String) (r : Option Inst) :
     (releaseEvents (releaseMetrics st s r) s r).toLookup = st.toLookup ∧
     (releaseEvents (releaseMetrics st s r) s r).inFlight = st.inFlight := by
   have a : ∀ (st : St α), (releaseEvents st s r).toLookup = st.toLookup ∧ (releaseEvents st s r).inFlight = st.inFlight := by
-    intro st; unfold releaseEvents; split <;> exact ⟨rfl, rfl⟩
+    intro st; unfold releaseEvents; split <;> simp
   have b : (releaseMetrics st s r).toLookup = st.toLookup ∧ (releaseMetrics st s r).inFlight = st.inFlight := by
-    unfold releaseMetrics; split <;> exact ⟨rfl, rfl⟩
+    unfold releaseMetrics; split <;> simp
   exact ⟨(a _).1.trans b.1, (a _).2.trans b.2⟩
 
 /-- parked data always has a lookup on its way -/
@@ -551,22 +604,26 @@ theorem countInv_of_parkEffect (st st' : St α) (src : String) (hw' : WFst st') 
     · simp [hsrc, hs]
 
 theorem lookupInv_step (fix : Bool) (st : St α) (a : Action α) (h : LookupInv st) : LookupInv (step fix st a) := by
-  refine step_preserves LookupInv fix ?_ ?_ ?_ ?_ ?_ ?_ ?_ st a h
+  refine step_preserves LookupInv fix ?_ ?_ ?_ ?_ ?_ ?_ ?_ ?_ ?_ st a h
   · intro st b pk h
     obtain ⟨e1, e2, e3, e4, _⟩ := afterHits_frame st b pk
-    refine ⟨⟨by rw [e1]; exact h.1.ndM, by rw [e2]; exact h.1.ndE, by rw [e2]; exact h.1.neE, by rw [e2]; exact h.1.srcE⟩, ?_⟩
+    refine ⟨⟨by rw [e1]; exact h.1.ndM, by rw [e2]; exact h.1.ndE, by rw [e2]; exact h.1.neE, by rw [e2]; exact h.1.srcE, (afterHits_delivered st b pk h.1.heldOK).2⟩, ?_⟩
     intro s hs
     simp only [parked, e1, e2] at hs
     simp only [outstanding, e3, e4]
     exact h.2 s hs
   · intro st e h
-    exact lookupInv_of_parkEffect st _ e.src ⟨nodupKeys_upsert _ _ h.1.ndM, h.1.ndE, h.1.neE, h.1.srcE⟩ (parkEffect_parkEnt fix st e h.1) h
-  · intro st _ _ d h; exact ⟨⟨h.1.ndM, h.1.ndE, h.1.neE, h.1.srcE⟩, h.2⟩
+    exact lookupInv_of_parkEffect st _ e.src ⟨nodupKeys_upsert _ _ h.1.ndM, h.1.ndE, h.1.neE, h.1.srcE, h.1.heldOK⟩ (parkEffect_parkEnt fix st e h.1) h
+  · intro st _ _ d h
+    refine ⟨wf_deliver _ _ ⟨h.1.ndM, h.1.ndE, h.1.neE, h.1.srcE, h.1.heldOK⟩, ?_⟩
+    intro s hs
+    have := h.2 s (by simpa [parked] using hs)
+    simpa [outstanding] using this
   · intro st hh mm e h
-    have hw : WFst ({ st with cacheHit := hh, cacheMiss := mm } : St α) := ⟨h.1.ndM, h.1.ndE, h.1.neE, h.1.srcE⟩
+    have hw : WFst ({ st with cacheHit := hh, cacheMiss := mm } : St α) := ⟨h.1.ndM, h.1.ndE, h.1.neE, h.1.srcE, h.1.heldOK⟩
     exact lookupInv_of_parkEffect _ _ e.src (wf_parkEvent fix _ e hw) (parkEffect_parkEvent fix _ e hw) ⟨hw, h.2⟩
   · intro st s rest heq h
-    refine ⟨⟨h.1.ndM, h.1.ndE, h.1.neE, h.1.srcE⟩, ?_⟩
+    refine ⟨⟨h.1.ndM, h.1.ndE, h.1.neE, h.1.srcE, h.1.heldOK⟩, ?_⟩
     intro s' hs'
     have := h.2 s' hs'
     simp only [outstanding, heq] at this
@@ -577,7 +634,7 @@ theorem lookupInv_step (fix : Bool) (st : St α) (a : Action α) (h : LookupInv 
     · exact Or.inr (Or.inr h1)
   · intro st s r h
     have hw := wf_releaseEvents _ s r (wf_releaseMetrics st s r h.1)
-    refine ⟨⟨hw.ndM, hw.ndE, hw.neE, hw.srcE⟩, ?_⟩
+    refine ⟨⟨hw.ndM, hw.ndE, hw.neE, hw.srcE, hw.heldOK⟩, ?_⟩
     intro s' hs'
     have hp : parked (releaseEvents (releaseMetrics st s r) s r) s' = true := hs'
     rw [parked_release st s r h.1] at hp
@@ -588,24 +645,30 @@ theorem lookupInv_step (fix : Bool) (st : St α) (a : Action α) (h : LookupInv 
     rcases this with h1 | h1
     · exact Or.inl h1
     · exact Or.inr ((List.mem_erase_of_ne hp.2).mpr h1)
-  · intro st x h; exact ⟨⟨h.1.ndM, h.1.ndE, h.1.neE, h.1.srcE⟩, h.2⟩
+  · intro st x h; exact ⟨⟨h.1.ndM, h.1.ndE, h.1.neE, h.1.srcE, h.1.heldOK⟩, h.2⟩
+  · intro st h; exact ⟨⟨h.1.ndM, h.1.ndE, h.1.neE, h.1.srcE, fun hb => by simp at hb⟩, h.2⟩
+  · intro st h; exact ⟨⟨h.1.ndM, h.1.ndE, h.1.neE, h.1.srcE, fun _ => rfl⟩, h.2⟩
 
 theorem countInv_step (fix : Bool) (st : St α) (a : Action α) (henv : EnvOK st a) (h : CountInv st) : CountInv (step fix st a) := by
-  refine step_preserves_env CountInv (fun st s => s ∈ st.inFlight) fix ?_ ?_ ?_ ?_ ?_ ?_ ?_ st a ?_ h
+  refine step_preserves_env CountInv (fun st s => s ∈ st.inFlight) fix ?_ ?_ ?_ ?_ ?_ ?_ ?_ ?_ ?_ st a ?_ h
   · intro st b pk h
     obtain ⟨e1, e2, e3, e4, _⟩ := afterHits_frame st b pk
-    refine ⟨⟨by rw [e1]; exact h.1.ndM, by rw [e2]; exact h.1.ndE, by rw [e2]; exact h.1.neE, by rw [e2]; exact h.1.srcE⟩, ?_⟩
+    refine ⟨⟨by rw [e1]; exact h.1.ndM, by rw [e2]; exact h.1.ndE, by rw [e2]; exact h.1.neE, by rw [e2]; exact h.1.srcE, (afterHits_delivered st b pk h.1.heldOK).2⟩, ?_⟩
     intro s
     simp only [parked, e1, e2, outstanding, e3, e4]
     exact h.2 s
   · intro st e h
-    exact countInv_of_parkEffect st _ e.src ⟨nodupKeys_upsert _ _ h.1.ndM, h.1.ndE, h.1.neE, h.1.srcE⟩ (parkEffect_parkEnt fix st e h.1) h
-  · intro st _ _ d h; exact ⟨⟨h.1.ndM, h.1.ndE, h.1.neE, h.1.srcE⟩, h.2⟩
+    exact countInv_of_parkEffect st _ e.src ⟨nodupKeys_upsert _ _ h.1.ndM, h.1.ndE, h.1.neE, h.1.srcE, h.1.heldOK⟩ (parkEffect_parkEnt fix st e h.1) h
+  · intro st _ _ d h
+    refine ⟨wf_deliver _ _ ⟨h.1.ndM, h.1.ndE, h.1.neE, h.1.srcE, h.1.heldOK⟩, ?_⟩
+    intro s
+    have := h.2 s
+    simpa [parked, outstanding] using this
   · intro st hh mm e h
-    have hw : WFst ({ st with cacheHit := hh, cacheMiss := mm } : St α) := ⟨h.1.ndM, h.1.ndE, h.1.neE, h.1.srcE⟩
+    have hw : WFst ({ st with cacheHit := hh, cacheMiss := mm } : St α) := ⟨h.1.ndM, h.1.ndE, h.1.neE, h.1.srcE, h.1.heldOK⟩
     exact countInv_of_parkEffect _ _ e.src (wf_parkEvent fix _ e hw) (parkEffect_parkEvent fix _ e hw) ⟨hw, h.2⟩
   · intro st s rest heq h
-    refine ⟨⟨h.1.ndM, h.1.ndE, h.1.neE, h.1.srcE⟩, ?_⟩
+    refine ⟨⟨h.1.ndM, h.1.ndE, h.1.neE, h.1.srcE, h.1.heldOK⟩, ?_⟩
     intro s'
     have := h.2 s'
     simp only [outstanding, heq] at this
@@ -614,7 +677,7 @@ theorem countInv_step (fix : Bool) (st : St α) (a : Action α) (henv : EnvOK st
     omega
   · intro st s r hin h
     have hw := wf_releaseEvents _ s r (wf_releaseMetrics st s r h.1)
-    refine ⟨⟨hw.ndM, hw.ndE, hw.neE, hw.srcE⟩, ?_⟩
+    refine ⟨⟨hw.ndM, hw.ndE, hw.neE, hw.srcE, hw.heldOK⟩, ?_⟩
     intro s'
     have hp : parked ({ releaseEvents (releaseMetrics st s r) s r with
         inFlight := (releaseEvents (releaseMetrics st s r) s r).inFlight.erase s } : St α) s' =
@@ -632,7 +695,9 @@ theorem countInv_step (fix : Bool) (st : St α) (a : Action α) (henv : EnvOK st
       split at hc <;> omega
     · have : (st.inFlight.erase s).count s' = st.inFlight.count s' := List.count_erase_of_ne hs
       simp [hs, this, hc]
-  · intro st x h; exact ⟨⟨h.1.ndM, h.1.ndE, h.1.neE, h.1.srcE⟩, h.2⟩
+  · intro st x h; exact ⟨⟨h.1.ndM, h.1.ndE, h.1.neE, h.1.srcE, h.1.heldOK⟩, h.2⟩
+  · intro st h; exact ⟨⟨h.1.ndM, h.1.ndE, h.1.neE, h.1.srcE, fun hb => by simp at hb⟩, h.2⟩
+  · intro st h; exact ⟨⟨h.1.ndM, h.1.ndE, h.1.neE, h.1.srcE, fun _ => rfl⟩, h.2⟩
   · intro s r ha
     subst ha
     exact henv
@@ -654,7 +719,7 @@ def GaugeInv (st : St α) : Prop :=
 
 theorem gaugeInv_parkEnt (st : St α) (e : Ent α) (h : GaugeInv st) : GaugeInv (parkEnt true st e) := by
   obtain ⟨hw, h1, h2, h3⟩ := h
-  refine ⟨⟨nodupKeys_upsert _ _ hw.ndM, hw.ndE, hw.neE, hw.srcE⟩, ?_, h2, h3⟩
+  refine ⟨⟨nodupKeys_upsert _ _ hw.ndM, hw.ndE, hw.neE, hw.srcE, hw.heldOK⟩, ?_, h2, h3⟩
   show (if (noMetrics st e.src && (noEvents st e.src || true)) = true then st.metricHosts + 1 else st.metricHosts) =
     ((AList.upsert e.src (fun o => e.addTo (o.getD MM.empty)) st.awaitingMetrics).length : Int)
   rw [length_upsert, noMetrics_eq', h1]
@@ -673,58 +738,68 @@ theorem gaugeInv_parkEvent (st : St α) (e : Event) (h : GaugeInv st) : GaugeInv
     rw [(flatMap_upsert_append e.src e st.awaitingEvents).length_eq, h3]
     simp [parkedEvents]
 
+theorem gaugeInv_deliver (st : St α) (ds : List (Delivery α)) (h : GaugeInv st) : GaugeInv (deliver st ds) := by
+  obtain ⟨hw, h1, h2, h3⟩ := h
+  exact ⟨wf_deliver st ds hw, by simpa [hostsWithMetrics] using h1, by simpa [hostsWithEvents] using h2,
+    by simpa [parkedEvents] using h3⟩
+
 theorem gaugeInv_releaseMetrics (st : St α) (s : String) (r : Option Inst) (h : GaugeInv st) :
     GaugeInv (releaseMetrics st s r) := by
   obtain ⟨hw, h1, h2, h3⟩ := h
-  refine ⟨wf_releaseMetrics st s r hw, ?_, ?_, ?_⟩
-  · unfold releaseMetrics
-    split
-    · rename_i m hm
-      have := length_erase_of_lookup hw.ndM hm
-      simp only [hostsWithMetrics] at h1 ⊢
-      omega
-    · exact h1
-  · unfold releaseMetrics; split <;> exact h2
-  · unfold releaseMetrics; split <;> exact h3
+  unfold releaseMetrics
+  split
+  · rename_i m hm
+    apply gaugeInv_deliver
+    refine ⟨⟨nodupKeys_erase _ hw.ndM, hw.ndE, hw.neE, hw.srcE, hw.heldOK⟩, ?_, h2, h3⟩
+    have := length_erase_of_lookup hw.ndM hm
+    simp only [hostsWithMetrics] at h1 ⊢
+    omega
+  · exact ⟨hw, h1, h2, h3⟩
 
 theorem gaugeInv_releaseEvents (st : St α) (s : String) (r : Option Inst) (h : GaugeInv st) :
     GaugeInv (releaseEvents st s r) := by
   obtain ⟨hw, h1, h2, h3⟩ := h
-  refine ⟨wf_releaseEvents st s r hw, ?_, ?_, ?_⟩
-  · unfold releaseEvents; split <;> exact h1
-  · unfold releaseEvents
-    split
-    · rename_i e es hm
-      have := length_erase_of_lookup hw.ndE hm
+  have hw' := wf_releaseEvents st s r hw
+  unfold releaseEvents at hw' ⊢
+  split
+  · rename_i e es hm
+    apply gaugeInv_deliver
+    simp only [hm] at hw'
+    refine ⟨⟨hw.ndM, nodupKeys_erase _ hw.ndE, ?_, ?_, hw.heldOK⟩, h1, ?_, ?_⟩
+    · intro s' l hl
+      have := hw'.neE s' l (by simpa using hl)
+      exact this
+    · intro s' l hl
+      have := hw'.srcE s' l (by simpa using hl)
+      exact this
+    · have := length_erase_of_lookup hw.ndE hm
       simp only [hostsWithEvents] at h2 ⊢
       omega
-    · exact h2
-  · unfold releaseEvents
-    split
-    · rename_i e es hm
-      have := (flatMap_erase hw.ndE hm).length_eq
+    · have := (flatMap_erase hw.ndE hm).length_eq
       simp only [parkedEvents, List.length_append, List.length_cons] at h3 this ⊢
       omega
-    · exact h3
+  · exact ⟨hw, h1, h2, h3⟩
 
 theorem gaugeInv_step (st : St α) (a : Action α) (h : GaugeInv st) : GaugeInv (step true st a) := by
-  refine step_preserves GaugeInv true ?_ ?_ ?_ ?_ ?_ ?_ ?_ st a h
+  refine step_preserves GaugeInv true ?_ ?_ ?_ ?_ ?_ ?_ ?_ ?_ ?_ st a h
   · intro st b pk h
     obtain ⟨e1, e2, _, _, e5, e6, e7⟩ := afterHits_frame st b pk
     obtain ⟨hw, h1, h2, h3⟩ := h
-    refine ⟨⟨by rw [e1]; exact hw.ndM, by rw [e2]; exact hw.ndE, by rw [e2]; exact hw.neE, by rw [e2]; exact hw.srcE⟩, ?_, ?_, ?_⟩
+    refine ⟨⟨by rw [e1]; exact hw.ndM, by rw [e2]; exact hw.ndE, by rw [e2]; exact hw.neE, by rw [e2]; exact hw.srcE, (afterHits_delivered st b pk hw.heldOK).2⟩, ?_, ?_, ?_⟩
     · simpa [hostsWithMetrics, e1, e5] using h1
     · simpa [hostsWithEvents, e2, e6] using h2
     · simpa [parkedEvents, e2, e7] using h3
   · intro st e h; exact gaugeInv_parkEnt st e h
-  · intro st _ _ d h; exact ⟨⟨h.1.ndM, h.1.ndE, h.1.neE, h.1.srcE⟩, h.2⟩
+  · intro st _ _ d h; exact gaugeInv_deliver _ _ ⟨⟨h.1.ndM, h.1.ndE, h.1.neE, h.1.srcE, h.1.heldOK⟩, h.2⟩
   · intro st hh mm e h
-    exact gaugeInv_parkEvent _ e ⟨⟨h.1.ndM, h.1.ndE, h.1.neE, h.1.srcE⟩, h.2⟩
-  · intro st s rest _ h; exact ⟨⟨h.1.ndM, h.1.ndE, h.1.neE, h.1.srcE⟩, h.2⟩
+    exact gaugeInv_parkEvent _ e ⟨⟨h.1.ndM, h.1.ndE, h.1.neE, h.1.srcE, h.1.heldOK⟩, h.2⟩
+  · intro st s rest _ h; exact ⟨⟨h.1.ndM, h.1.ndE, h.1.neE, h.1.srcE, h.1.heldOK⟩, h.2⟩
   · intro st s r h
     have := gaugeInv_releaseEvents _ s r (gaugeInv_releaseMetrics st s r h)
-    exact ⟨⟨this.1.ndM, this.1.ndE, this.1.neE, this.1.srcE⟩, this.2⟩
-  · intro st x h; exact ⟨⟨h.1.ndM, h.1.ndE, h.1.neE, h.1.srcE⟩, h.2⟩
+    exact ⟨⟨this.1.ndM, this.1.ndE, this.1.neE, this.1.srcE, this.1.heldOK⟩, this.2⟩
+  · intro st x h; exact ⟨⟨h.1.ndM, h.1.ndE, h.1.neE, h.1.srcE, h.1.heldOK⟩, h.2⟩
+  · intro st h; exact ⟨⟨h.1.ndM, h.1.ndE, h.1.neE, h.1.srcE, fun hb => by simp at hb⟩, h.2⟩
+  · intro st h; exact ⟨⟨h.1.ndM, h.1.ndE, h.1.neE, h.1.srcE, fun _ => rfl⟩, h.2⟩
 
 end gauges
 end Cloud
@@ -745,11 +820,21 @@ def arrivedEvents (as : List (Action α)) : List Event :=
 def arrivedEntries (as : List (Action α)) : List (Ent α) :=
   as.flatMap (fun a => match a with | .arriveMetrics b _ => entries b | _ => [])
 
+/-- the events the stage has handed to downstream (taken, or stuck in front of a blocked downstream), in order -/
 def deliveredEvents (st : St α) : List Event :=
-  st.delivered.filterMap (fun d => match d with | .event e => some e | _ => none)
+  (outbound st).filterMap (fun d => match d with | .event e => some e | _ => none)
 
+/-- the metric maps the stage has handed to downstream, in order -/
 def deliveredMaps (st : St α) : List (MM α) :=
-  st.delivered.filterMap (fun d => match d with | .metrics m => some m | _ => none)
+  (outbound st).filterMap (fun d => match d with | .metrics m => some m | _ => none)
+
+theorem deliveredEvents_deliver [Add α] (st : St α) (ds : List (Delivery α)) (hh : st.blocked = false → st.held = []) :
+    deliveredEvents (deliver st ds) = deliveredEvents st ++ ds.filterMap (fun d => match d with | .event e => some e | _ => none) := by
+  unfold deliveredEvents; rw [outbound_deliver st ds hh, List.filterMap_append]
+
+theorem deliveredMaps_deliver [Add α] (st : St α) (ds : List (Delivery α)) (hh : st.blocked = false → st.held = []) :
+    deliveredMaps (deliver st ds) = deliveredMaps st ++ ds.filterMap (fun d => match d with | .metrics m => some m | _ => none) := by
+  unfold deliveredMaps; rw [outbound_deliver st ds hh, List.filterMap_append]
 
 /-- why a delivered event `(original, instance applied)` was delivered that way: it arrived while the
 cache answered `some i` for its source, or the lookup of its source completed with `i` -/
@@ -866,7 +951,7 @@ theorem perm_ledger {β : Type} {A P P' H M X E : List β} (h1 : (A ++ P).Perm X
 /-- `DispatchMetricMap`: hits are one new record, misses go to the ghost parking table -/
 theorem metOK_arriveMetrics (fix : Bool) {pend recs X J} (st : St α) (b : MM α) (pk : Peek)
     (hJ : J ⟨(entries b).filter (fun e => isHit pk e.src), instOf pk, none⟩)
-    (h : MetOK pend recs X J st) :
+    (hh : st.blocked = false → st.held = []) (h : MetOK pend recs X J st) :
     ∃ pend' recs', MetOK pend' recs' (X ++ entries b) J (step fix st (.arriveMetrics b pk)) := by
   obtain ⟨hl, hd, hr, hp⟩ := h
   rw [step_arriveMetrics]
@@ -876,8 +961,11 @@ theorem metOK_arriveMetrics (fix : Bool) {pend recs X J} (st : St α) (b : MM α
   have hdel : deliveredMaps (((entries b).filter (fun e => !isHit pk e.src)).foldl (parkEnt fix) (afterHits st b pk)) =
       deliveredMaps st ++ (if ((entries b).filter (fun e => isHit pk e.src)).isEmpty then []
         else [rekeyEntries (instOf pk) ((entries b).filter (fun e => isHit pk e.src))]) := by
-    unfold deliveredMaps
-    rw [(foldl_parkEnt_frame fix _ _).1, afterHits_delivered, List.filterMap_append]
+    unfold deliveredMaps outbound
+    rw [(foldl_parkEnt_frame fix _ _).1, (foldl_parkEnt_frame fix _ _).2.2.2.2.2.1]
+    have := (afterHits_delivered st b pk hh).1
+    unfold outbound at this
+    rw [this, List.filterMap_append]
     split <;> simp
   have hpart : ((entries b).filter (fun e => isHit pk e.src) ++ (entries b).filter (fun e => !isHit pk e.src)).Perm (entries b) :=
     List.filter_append_perm _ _
@@ -901,7 +989,7 @@ theorem metOK_arriveMetrics (fix : Bool) {pend recs X J} (st : St α) (b : MM α
 /-- `handleInstanceInfo`, metric half: the parked map of `s` becomes one new record -/
 theorem metOK_releaseMetrics {pend recs X J} (st : St α) (s : String) (r : Option Inst)
     (hJ : ∀ (es : List (Ent α)) m, (∀ e ∈ es, e.src = s) → J ⟨es, fun _ => r, some m⟩)
-    (h : MetOK pend recs X J st) :
+    (hh : st.blocked = false → st.held = []) (h : MetOK pend recs X J st) :
     ∃ pend' recs', MetOK pend' recs' X J (releaseMetrics st s r) := by
   obtain ⟨hl, hd, hr, hp⟩ := h
   unfold releaseMetrics
@@ -915,14 +1003,15 @@ theorem metOK_releaseMetrics {pend recs X J} (st : St α) (s : String) (r : Opti
       simp only [hm, hq, Link] at hs
       refine ⟨AList.erase s pend, recs ++ [⟨es, fun _ => r, some m⟩], ⟨nodupKeys_erase _ hl.1, ?_⟩, ?_, ?_, ?_⟩
       · intro s'
-        show Link (lookup s' (AList.erase s st.awaitingMetrics)) (lookup s' (AList.erase s pend)) s'
+        simp only [deliver_awaitingMetrics]
         rw [lookup_erase, lookup_erase]
         split
         · trivial
         · exact hl.2 s'
-      · show deliveredMaps ({ st with awaitingMetrics := _, metricHosts := _, delivered := st.delivered ++ [.metrics (rekeyEntries (fun _ => r) (entries m))] } : St α) = _
-        unfold deliveredMaps at hd ⊢
-        simp only [List.filterMap_append, hd, List.map_append]
+      · simp only
+        rw [deliveredMaps_deliver ({ st with awaitingMetrics := AList.erase s st.awaitingMetrics, metricHosts := st.metricHosts - 1 } : St α) _ hh]
+        have hd' : deliveredMaps ({ st with awaitingMetrics := AList.erase s st.awaitingMetrics, metricHosts := st.metricHosts - 1 } : St α) = deliveredMaps st := rfl
+        rw [hd', hd]
         simp [MRec.out]
       · intro r' hr'
         simp only [List.mem_append, List.mem_singleton] at hr'
@@ -935,20 +1024,27 @@ theorem metOK_releaseMetrics {pend recs X J} (st : St α) (s : String) (r : Opti
         rw [List.append_assoc]
         exact List.Perm.append_left _ this.symm
 
-theorem releaseMetrics_frame (st : St α) (s : String) (r : Option Inst) :
+theorem releaseMetrics_frame (st : St α) (s : String) (r : Option Inst) (hh : st.blocked = false → st.held = []) :
     (releaseMetrics st s r).awaitingEvents = st.awaitingEvents ∧ deliveredEvents (releaseMetrics st s r) = deliveredEvents st := by
   unfold releaseMetrics
   split
-  · exact ⟨rfl, by simp [deliveredEvents, List.filterMap_append]⟩
+  · refine ⟨by simp, ?_⟩
+    rw [deliveredEvents_deliver ({ st with awaitingMetrics := AList.erase s st.awaitingMetrics, metricHosts := st.metricHosts - 1 } : St α) _ hh]
+    have hd' : ∀ (a : AList String (MM α)) (n : Int), deliveredEvents ({ st with awaitingMetrics := a, metricHosts := n } : St α) = deliveredEvents st :=
+      fun _ _ => rfl
+    rw [hd']; simp
   · exact ⟨rfl, rfl⟩
 
-theorem releaseEvents_frame (st : St α) (s : String) (r : Option Inst) :
+theorem releaseEvents_frame (st : St α) (s : String) (r : Option Inst) (hh : st.blocked = false → st.held = []) :
     (releaseEvents st s r).awaitingMetrics = st.awaitingMetrics ∧ deliveredMaps (releaseEvents st s r) = deliveredMaps st := by
   unfold releaseEvents
   split
-  · refine ⟨rfl, ?_⟩
-    simp only [deliveredMaps, List.filterMap_append]
-    rw [List.filterMap_map]
+  · rename_i e es hm
+    refine ⟨by simp, ?_⟩
+    rw [deliveredMaps_deliver ({ st with awaitingEvents := AList.erase s st.awaitingEvents, eventItems := st.eventItems - ((e :: es).length : Int), eventHosts := st.eventHosts - 1 } : St α) _ hh]
+    have hd' : ∀ (a : AList String (List Event)) (n k : Int), deliveredMaps ({ st with awaitingEvents := a, eventItems := n, eventHosts := k } : St α) = deliveredMaps st :=
+      fun _ _ _ => rfl
+    rw [hd', List.filterMap_map]
     simp
   · exact ⟨rfl, rfl⟩
 
@@ -961,12 +1057,14 @@ theorem evOK_releaseEvents {origE X J} (st : St α) (s : String) (r : Option Ins
   split
   · rename_i e es hm
     refine ⟨origE ++ (e :: es).map (fun x => (x, r)), ?_, ?_, ?_⟩
-    · simp only [deliveredEvents, List.filterMap_append] at hd ⊢
-      rw [hd, List.filterMap_map]
+    · rw [deliveredEvents_deliver ({ st with awaitingEvents := AList.erase s st.awaitingEvents, eventItems := st.eventItems - ((e :: es).length : Int), eventHosts := st.eventHosts - 1 } : St α) _ hw.heldOK]
+      have hd' : ∀ (a : AList String (List Event)) (n k : Int), deliveredEvents ({ st with awaitingEvents := a, eventItems := n, eventHosts := k } : St α) = deliveredEvents st :=
+        fun _ _ _ => rfl
+      rw [hd', hd, List.filterMap_map]
       simp [List.map_append, Function.comp_def]
     · have := flatMap_erase hw.ndE hm
       refine List.Perm.trans ?_ hp
-      simp only [parkedEvents, List.map_append, List.map_map, Function.comp_def, List.map_id', List.append_assoc]
+      simp only [parkedEvents, deliver_awaitingEvents, List.map_append, List.map_map, Function.comp_def, List.map_id', List.append_assoc]
       exact List.Perm.append_left _ this.symm
     · intro p hp'
       simp only [List.mem_append, List.mem_map] at hp'
@@ -977,16 +1075,17 @@ theorem evOK_releaseEvents {origE X J} (st : St α) (s : String) (r : Option Ins
 
 /-- `handleIncomingEvent` / the hit branch of `DispatchEvent` -/
 theorem evOK_arriveEvent (fix : Bool) {origE X J} (st : St α) (e : Event) (pk : Peek)
-    (hJ : ∀ i, cacheView pk e.src = some i → J (e, i)) (h : EvOK origE X J st) :
+    (hJ : ∀ i, cacheView pk e.src = some i → J (e, i)) (hh : st.blocked = false → st.held = []) (h : EvOK origE X J st) :
     ∃ origE', EvOK origE' (X ++ [e]) J (step fix st (.arriveEvent e pk)) := by
   obtain ⟨hd, hp, hj⟩ := h
   simp only [step]
   split
   · rename_i i hi
     refine ⟨origE ++ [(e, i)], ?_, ?_, ?_⟩
-    · simp only [deliveredEvents, List.filterMap_append] at hd ⊢
-      rw [hd]; simp
-    · simp only [List.map_append, List.map_cons, List.map_nil, List.append_assoc]
+    · rw [deliveredEvents_deliver ({ st with cacheHit := st.cacheHit + (countQueries pk [e.src]).1, cacheMiss := st.cacheMiss + (countQueries pk [e.src]).2 } : St α) _ hh]
+      have hd' : ∀ (a b : Nat), deliveredEvents ({ st with cacheHit := a, cacheMiss := b } : St α) = deliveredEvents st := fun _ _ => rfl
+      rw [hd', hd]; simp
+    · simp only [parkedEvents, deliver_awaitingEvents, List.map_append, List.map_cons, List.map_nil, List.append_assoc]
       refine List.Perm.trans ?_ (List.Perm.append_right [e] hp)
       rw [List.append_assoc]
       exact List.Perm.append_left _ List.perm_append_comm
@@ -1034,14 +1133,17 @@ theorem ghost_step (fix : Bool) (g : Ghost α) (as : List (Action α)) (st : St 
   cases a with
   | arriveMetrics b pk =>
     obtain ⟨pend', recs', hM'⟩ := metOK_arriveMetrics fix st b pk
-      (Or.inl ⟨b, pk, by simp, rfl, rfl, rfl⟩) hM0
+      (Or.inl ⟨b, pk, by simp, rfl, rfl, rfl⟩) hw.heldOK hM0
     refine ⟨⟨g.origE, pend', recs'⟩, hw', ?_, ?_⟩
     · have hX : arrivedEvents (as ++ [Action.arriveMetrics b pk]) = arrivedEvents as := by simp [arrivedEvents, List.filterMap_append]
       rw [hX]
       refine evOK_congr ?_ ?_ hE0
       · rw [step_arriveMetrics]
-        unfold deliveredEvents
-        rw [(foldl_parkEnt_frame fix _ _).1, afterHits_delivered, List.filterMap_append]
+        unfold deliveredEvents outbound
+        rw [(foldl_parkEnt_frame fix _ _).1, (foldl_parkEnt_frame fix _ _).2.2.2.2.2.1]
+        have := (afterHits_delivered st b pk hw.heldOK).1
+        unfold outbound at this
+        rw [this, List.filterMap_append]
         split <;> simp
       · rw [step_arriveMetrics, (foldl_parkEnt_frame fix _ _).2.1]
         exact (afterHits_frame st b pk).2.1
@@ -1049,15 +1151,19 @@ theorem ghost_step (fix : Bool) (g : Ghost α) (as : List (Action α)) (st : St 
       rw [hX]; exact hM'
   | arriveEvent e pk =>
     obtain ⟨origE', hE'⟩ := evOK_arriveEvent fix st e pk
-      (fun i hi => Or.inl ⟨pk, by simp, hi⟩) hE0
+      (fun i hi => Or.inl ⟨pk, by simp, hi⟩) hw.heldOK hE0
     refine ⟨⟨origE', g.pend, g.recs⟩, hw', ?_, ?_⟩
     · have hX : arrivedEvents (as ++ [Action.arriveEvent e pk]) = arrivedEvents as ++ [e] := by simp [arrivedEvents, List.filterMap_append]
       rw [hX]; exact hE'
     · have hX : arrivedEntries (as ++ [Action.arriveEvent e pk]) = arrivedEntries as := by simp [arrivedEntries, List.flatMap_append]
       rw [hX]
       refine metOK_congr ?_ ?_ hM0
-      · simp only [step]; split <;> simp [deliveredMaps, List.filterMap_append, parkEvent]
-      · simp only [step]; split <;> rfl
+      · simp only [step]
+        split
+        · rw [deliveredMaps_deliver ({ st with cacheHit := st.cacheHit + (countQueries pk [e.src]).1, cacheMiss := st.cacheMiss + (countQueries pk [e.src]).2 } : St α) _ hw.heldOK]
+          simp [deliveredMaps, outbound]
+        · rfl
+      · simp only [step]; split <;> simp [parkEvent]
   | sendLookup =>
     refine ⟨g, hw', ?_, ?_⟩
     · have hX : arrivedEvents (as ++ [Action.sendLookup]) = arrivedEvents as := by simp [arrivedEvents, List.filterMap_append]
@@ -1070,13 +1176,13 @@ theorem ghost_step (fix : Bool) (g : Ghost α) (as : List (Action α)) (st : St 
     have hXe : arrivedEvents (as ++ [Action.info s r]) = arrivedEvents as := by simp [arrivedEvents, List.filterMap_append]
     have hXm : arrivedEntries (as ++ [Action.info s r]) = arrivedEntries as := by simp [arrivedEntries, List.flatMap_append]
     obtain ⟨pend', recs', hM1⟩ := metOK_releaseMetrics st s r
-      (fun es m hs => Or.inr ⟨s, r, by simp, rfl, rfl, hs⟩) hM0
+      (fun es m hs => Or.inr ⟨s, r, by simp, rfl, rfl, hs⟩) hw.heldOK hM0
     have hE1 : EvOK g.origE (arrivedEvents as) (JustE (as ++ [Action.info s r])) (releaseMetrics st s r) :=
-      evOK_congr (releaseMetrics_frame st s r).2 (releaseMetrics_frame st s r).1 hE0
+      evOK_congr (releaseMetrics_frame st s r hw.heldOK).2 (releaseMetrics_frame st s r hw.heldOK).1 hE0
     obtain ⟨origE', hE2⟩ := evOK_releaseEvents (releaseMetrics st s r) s r (wf_releaseMetrics st s r hw)
       (fun e he => Or.inr (by rw [he]; simp)) hE1
     have hM2 : MetOK pend' recs' (arrivedEntries as) (JustM (as ++ [Action.info s r])) (releaseEvents (releaseMetrics st s r) s r) :=
-      metOK_congr (releaseEvents_frame _ s r).2 (releaseEvents_frame _ s r).1 hM1
+      metOK_congr (releaseEvents_frame _ s r (wf_releaseMetrics st s r hw).heldOK).2 (releaseEvents_frame _ s r (wf_releaseMetrics st s r hw).heldOK).1 hM1
     refine ⟨⟨origE', pend', recs'⟩, hw', ?_, ?_⟩
     · rw [hXe]; exact evOK_congr rfl rfl hE2
     · rw [hXm]; exact metOK_congr rfl rfl hM2
@@ -1086,6 +1192,18 @@ theorem ghost_step (fix : Bool) (g : Ghost α) (as : List (Action α)) (st : St 
       rw [hX]; exact evOK_congr rfl rfl hE0
     · have hX : arrivedEntries (as ++ [Action.emit]) = arrivedEntries as := by simp [arrivedEntries, List.flatMap_append]
       rw [hX]; exact metOK_congr rfl rfl hM0
+  | block =>
+    refine ⟨g, hw', ?_, ?_⟩
+    · have hX : arrivedEvents (as ++ [Action.block]) = arrivedEvents as := by simp [arrivedEvents, List.filterMap_append]
+      rw [hX]; exact evOK_congr rfl rfl hE0
+    · have hX : arrivedEntries (as ++ [Action.block]) = arrivedEntries as := by simp [arrivedEntries, List.flatMap_append]
+      rw [hX]; exact metOK_congr rfl rfl hM0
+  | unblock =>
+    refine ⟨g, hw', ?_, ?_⟩
+    · have hX : arrivedEvents (as ++ [Action.unblock]) = arrivedEvents as := by simp [arrivedEvents, List.filterMap_append]
+      rw [hX]; exact evOK_congr (st := st) (st' := step fix st .unblock) (by simp [deliveredEvents, outbound, step]) rfl hE0
+    · have hX : arrivedEntries (as ++ [Action.unblock]) = arrivedEntries as := by simp [arrivedEntries, List.flatMap_append]
+      rw [hX]; exact metOK_congr (st := st) (st' := step fix st .unblock) (by simp [deliveredMaps, outbound, step]) rfl hM0
 
 theorem ghost_run (fix : Bool) (as : List (Action α)) : ∃ g : Ghost α, g.OK as (run fix as) := by
   have key : ∀ (as pre : List (Action α)) (st : St α) (g : Ghost α), g.OK pre st →
